@@ -69,12 +69,21 @@ pub fn height_band(top: u64) -> Vec<u64> {
 pub fn obs(inst: &mut Inst, uni: &Universe, cfg: &ObsCfg) -> String {
     let mut out = String::with_capacity(1 << 16);
     let mut q = |inst: &mut Inst, out: &mut String, m: &str, p: Value| {
-        let r = inst.call(m, p.clone());
         out.push_str(m);
         out.push(' ');
         out.push_str(&p.to_string());
         out.push_str(" => ");
-        out.push_str(&canon(&r.to_value()));
+        if m.starts_with("txpool_") {
+            // the only answers built from unordered maps: JSON object key order is not significant
+            let r = inst.call(m, p);
+            out.push_str(&canon(&r.to_value()));
+        } else {
+            // every other answer is compared byte for byte (block processing time masked)
+            match inst.call_raw(m, &p) {
+                Some(text) => push_masked(out, &text),
+                None => out.push_str("PANIC"),
+            }
+        }
         out.push('\n');
     };
     q(inst, &mut out, "eth_blockNumber", json!([]));
@@ -132,6 +141,20 @@ pub fn obs(inst: &mut Inst, uni: &Universe, cfg: &ObsCfg) -> String {
         }
     }
     out
+}
+
+/// Append `text` with the value of every "mineTimestamp" field replaced by 0x0.
+fn push_masked(out: &mut String, text: &str) {
+    const KEY: &str = "\"mineTimestamp\":\"";
+    let mut rest = text;
+    while let Some(i) = rest.find(KEY) {
+        out.push_str(&rest[..i + KEY.len()]);
+        let after = &rest[i + KEY.len()..];
+        let end = after.find('"').unwrap_or(after.len());
+        out.push_str("0x0");
+        rest = &after[end..];
+    }
+    out.push_str(rest);
 }
 
 /// The state-independent methods (used once per run by C02's digest).
